@@ -12,6 +12,20 @@ pub enum Listener {
     Tcp(TcpListener),
     #[cfg(unix)]
     Unix(unix_net::UnixListener),
+    #[cfg(tiny_http_verif)]
+    Mem(tiny_http_vrt::net::MemListener),
+}
+#[cfg(tiny_http_verif)]
+impl From<tiny_http_vrt::net::MemListener> for Listener {
+    fn from(s: tiny_http_vrt::net::MemListener) -> Self {
+        Self::Mem(s)
+    }
+}
+#[cfg(tiny_http_verif)]
+impl From<tiny_http_vrt::net::MemStream> for Connection {
+    fn from(s: tiny_http_vrt::net::MemStream) -> Self {
+        Self::Mem(s)
+    }
 }
 impl Listener {
     pub(crate) fn local_addr(&self) -> std::io::Result<ListenAddr> {
@@ -19,6 +33,8 @@ impl Listener {
             Self::Tcp(l) => l.local_addr().map(ListenAddr::from),
             #[cfg(unix)]
             Self::Unix(l) => l.local_addr().map(ListenAddr::from),
+            #[cfg(tiny_http_verif)]
+            Self::Mem(l) => l.local_addr().map(ListenAddr::Mem),
         }
     }
 
@@ -29,6 +45,8 @@ impl Listener {
                 .map(|(conn, addr)| (Connection::from(conn), Some(addr))),
             #[cfg(unix)]
             Self::Unix(l) => l.accept().map(|(conn, _)| (Connection::from(conn), None)),
+            #[cfg(tiny_http_verif)]
+            Self::Mem(l) => l.accept().map(|(conn, _)| (Connection::from(conn), None)),
         }
     }
 }
@@ -50,6 +68,8 @@ pub(crate) enum Connection {
     Tcp(TcpStream),
     #[cfg(unix)]
     Unix(unix_net::UnixStream),
+    #[cfg(tiny_http_verif)]
+    Mem(tiny_http_vrt::net::MemStream),
 }
 impl std::io::Read for Connection {
     fn read(&mut self, buf: &mut [u8]) -> std::io::Result<usize> {
@@ -57,6 +77,8 @@ impl std::io::Read for Connection {
             Self::Tcp(s) => s.read(buf),
             #[cfg(unix)]
             Self::Unix(s) => s.read(buf),
+            #[cfg(tiny_http_verif)]
+            Self::Mem(s) => s.read(buf),
         }
     }
 }
@@ -66,6 +88,8 @@ impl std::io::Write for Connection {
             Self::Tcp(s) => s.write(buf),
             #[cfg(unix)]
             Self::Unix(s) => s.write(buf),
+            #[cfg(tiny_http_verif)]
+            Self::Mem(s) => s.write(buf),
         }
     }
 
@@ -74,6 +98,8 @@ impl std::io::Write for Connection {
             Self::Tcp(s) => s.flush(),
             #[cfg(unix)]
             Self::Unix(s) => s.flush(),
+            #[cfg(tiny_http_verif)]
+            Self::Mem(s) => s.flush(),
         }
     }
 }
@@ -84,6 +110,8 @@ impl Connection {
             Self::Tcp(s) => s.peer_addr().map(Some),
             #[cfg(unix)]
             Self::Unix(_) => Ok(None),
+            #[cfg(tiny_http_verif)]
+            Self::Mem(_) => Ok(None),
         }
     }
 
@@ -92,6 +120,8 @@ impl Connection {
             Self::Tcp(s) => s.shutdown(how),
             #[cfg(unix)]
             Self::Unix(s) => s.shutdown(how),
+            #[cfg(tiny_http_verif)]
+            Self::Mem(s) => s.shutdown(how),
         }
     }
 
@@ -100,6 +130,8 @@ impl Connection {
             Self::Tcp(s) => s.try_clone().map(Self::from),
             #[cfg(unix)]
             Self::Unix(s) => s.try_clone().map(Self::from),
+            #[cfg(tiny_http_verif)]
+            Self::Mem(s) => s.try_clone().map(Self::from),
         }
     }
 }
@@ -147,6 +179,8 @@ pub enum ListenAddr {
     IP(SocketAddr),
     #[cfg(unix)]
     Unix(unix_net::SocketAddr),
+    #[cfg(tiny_http_verif)]
+    Mem(tiny_http_vrt::net::MemAddr),
 }
 impl ListenAddr {
     pub fn to_ip(self) -> Option<SocketAddr> {
@@ -154,6 +188,8 @@ impl ListenAddr {
             Self::IP(s) => Some(s),
             #[cfg(unix)]
             Self::Unix(_) => None,
+            #[cfg(tiny_http_verif)]
+            Self::Mem(_) => None,
         }
     }
 
@@ -165,6 +201,8 @@ impl ListenAddr {
         match self {
             Self::IP(_) => None,
             Self::Unix(s) => Some(s),
+            #[cfg(tiny_http_verif)]
+            Self::Mem(_) => None,
         }
     }
     #[cfg(not(unix))]
@@ -189,6 +227,8 @@ impl std::fmt::Display for ListenAddr {
             Self::IP(s) => s.fmt(f),
             #[cfg(unix)]
             Self::Unix(s) => std::fmt::Debug::fmt(s, f),
+            #[cfg(tiny_http_verif)]
+            Self::Mem(s) => std::fmt::Display::fmt(s, f),
         }
     }
 }
